@@ -181,6 +181,16 @@ class Result:
         self.known[fid] = self.known.get(fid, 0) + 1
         self.known_summaries[fid] = summary
 
+    def known_or_violation(self, fid: str, key: str, summary: str, payload: dict) -> None:
+        """A case whose mechanism the check has attributed to finding ``fid``: a KNOWN-FINDING if
+        the committed known_findings.json lists it for this property, a VIOLATION otherwise."""
+        from . import findings
+
+        if findings.is_known(self.prop, fid):
+            self.known_finding(fid, findings.summary(fid))
+        else:
+            self.violation(key, summary, payload)
+
     def inconclusive_because(self, reason: str) -> None:
         if reason not in self.inconclusive:
             self.inconclusive.append(reason)
@@ -213,29 +223,7 @@ class Result:
             if len(self.samples) < 8:
                 self.samples.append(s)
         for k, v in w.get("coverage", {}).items():
-            cur = self.coverage.get(k)
-            if isinstance(v, bool):
-                self.coverage[k] = v if cur is None else (cur and v)
-            elif k.startswith("max_") and isinstance(v, (int, float)):
-                self.coverage[k] = v if cur is None else max(cur, v)
-            elif isinstance(v, int) and (cur is None or isinstance(cur, int)):
-                self.coverage[k] = (cur or 0) + v
-            elif isinstance(v, dict) and (cur is None or isinstance(cur, dict)):
-                d = dict(cur or {})
-                for kk, vv in v.items():
-                    if isinstance(vv, int) and not isinstance(vv, bool):
-                        d[kk] = d.get(kk, 0) + vv
-                    else:
-                        d[kk] = vv
-                self.coverage[k] = d
-            elif isinstance(v, list) and (cur is None or isinstance(cur, list)):
-                merged = list(cur or [])
-                for x in v:
-                    if x not in merged:
-                        merged.append(x)
-                self.coverage[k] = merged
-            else:
-                self.coverage[k] = v
+            self.coverage[k] = _merge_cov(k, self.coverage.get(k), v)
 
     # -- finishing -------------------------------------------------------------------
     def finish(self, evaluations: int, distinct_nontrivial: int, rule: str, floor_ok: bool = True) -> int:
@@ -285,6 +273,29 @@ class Result:
         print(f"{self.prop}: held on {evaluations} evaluations ({distinct_nontrivial} distinct non-trivial) "
               f"tier={self.tier} seed={self.seed} in {ev['wall_s']}s")
         return EXIT_HELD
+
+
+def _merge_cov(key: str, cur: object, v: object) -> object:
+    """Merge one worker's coverage value into the accumulated one (sum ints, max for max_*,
+    and-ing booleans, union lists, recurse into dicts)."""
+    if cur is None:
+        return v
+    if isinstance(v, bool) and isinstance(cur, bool):
+        return cur and v
+    if isinstance(v, (int, float)) and isinstance(cur, (int, float)) and not isinstance(v, bool):
+        return max(cur, v) if key.startswith("max_") else cur + v
+    if isinstance(v, dict) and isinstance(cur, dict):
+        out = dict(cur)
+        for kk, vv in v.items():
+            out[kk] = _merge_cov(kk, out.get(kk), vv)
+        return out
+    if isinstance(v, list) and isinstance(cur, list):
+        out_l = list(cur)
+        for x in v:
+            if x not in out_l:
+                out_l.append(x)
+        return out_l
+    return v
 
 
 def write_replay(prop: str, key: str, summary: str, payload: dict, tier_: str) -> pathlib.Path:
